@@ -511,3 +511,16 @@ def check(ctx):
         T_tasks(ctx, server)
         P_live(ctx, server)
         W_shared(ctx, server)
+        # the only state shared between users besides the database: taken with the blocking lock only (a try_lock().unwrap() turns another user's concurrent request
+        # into a 500 for this user)
+        rule = "C17.W-shared"
+        tl = []
+        for b0 in server.all_bodies:
+            d0 = None
+            for bb0, t0, ci0 in b0.calls():
+                p0 = ir.callee_path(ci0) or ""
+                if flow.last(p0) == "try_lock" and "Mutex" in p0:
+                    d0 = d0 or flow.Defs(b0)
+                    if flow.find(d0.expr_call(t0, bb0), lambda n_: n_[0] == "field" and n_[2] == "currently_running"):
+                        tl.append(b0.where(t0.get("loc")))
+        ctx.ob(rule, "blocking-lock-only", not tl, expected="currently_running is taken with Mutex::lock only", found=tl[:3])
